@@ -342,7 +342,7 @@ class TS:
             if nets and nets[0].is_cell and isinstance(nl.cells[nets[0].cell], nir.SyncReadPort) and nets[0].bit == 0 \
                     and len(nets) == nl.cells[nets[0].cell].width:
                 rpname.setdefault(nets[0].cell, sig)
-        used = set()
+        used = {str(v) for v in self.inputs.values()}      # a register must never share its z3 name with an input port
         def uniq(n):
             base, k = n, 1
             while n in used:
